@@ -538,6 +538,7 @@ pub fn wcb_rule(cx: &Cx, rep: &mut Report) {
     // push_bounds
     if let Some(f) = find_fn(ix, &|f| f.self_ty.as_deref() == Some("WhereClauseBuilder") && sig_text(f).contains("&Bounds") && sig_text(f).contains("->bool")) {
         let outs = ev.call_fn(St::new(), &f, Some(wsym.clone()), vec![sym("Bounds", "b")]);
+        if std::env::var("GENLINT_DEBUG_WCB").is_ok() { for (st, fl) in &outs { eprintln!("WCB push_bounds [{}] {:?} -> {}", crate::model::cond_str(&st.cond), notes(st), match fl { Flow::Val(v) | Flow::Ret(v) => v.short(), _ => "?".into() }); } eprintln!("UNSUP {:?}", ev.unsupported.borrow()); }
         let mut ok = outs.len() == 1;
         for (st, fl) in &outs {
             let ns: Vec<String> = notes(st).iter().map(|n| n.replace(' ', "")).collect();
@@ -562,10 +563,13 @@ pub fn wcb_rule(cx: &Cx, rep: &mut Report) {
     // build: every type through the formatter, every predicate verbatim
     if let Some(f) = find_fn(ix, &|f| f.self_ty.as_deref() == Some("WhereClauseBuilder") && sig_text(f).contains("->TokenStream")) {
         let outs = ev.call_fn(St::new(), &f, Some(wsym.clone()), vec![sym("Formatter", "f")]);
+        if std::env::var("GENLINT_DEBUG_WCB").is_ok() { for (st, fl) in &outs { eprintln!("WCB build [{}] -> {}", crate::model::cond_str(&st.cond), match fl { Flow::Val(v) | Flow::Ret(v) => v.short(), _ => "?".into() }); } eprintln!("UNSUP {:?}", ev.unsupported.borrow()); }
         let mut ok_nonempty = false;
         let mut ok_empty = false;
         for (st, fl) in &outs {
             let empty = st.cond.iter().find(|(a, _)| a.starts_with("all-empty(")).map(|(_, b)| *b);
+            // `TokenStream::new()` is the empty template
+            if let (Some(true), Flow::Val(Val::List(l))) = (empty, fl) { ok_empty = l.is_empty(); continue; }
             let Flow::Val(Val::Tmpl(t)) = fl else { continue };
             match empty {
                 Some(true) => ok_empty = t.tokens.trim().is_empty(),
@@ -587,6 +591,7 @@ pub fn wcb_rule(cx: &Cx, rep: &mut Report) {
         let ev2 = mk_ev(ix);
         ev2.open_at_top.replace(Some(f.qual.clone()));
         let outs = ev2.call_fn(St::new(), &f, None, vec![sym("Generics", "generics")]);
+        if std::env::var("GENLINT_DEBUG_WCB").is_ok() { for (st, fl) in &outs { eprintln!("WCB new [{}] -> {}", crate::model::cond_str(&st.cond), match fl { Flow::Val(v) | Flow::Ret(v) => v.short(), _ => "?".into() }); } eprintln!("UNSUP {:?}", ev2.unsupported.borrow()); }
         let mut ok = false;
         let mut bad = false;
         for (st, fl) in &outs {
@@ -594,6 +599,13 @@ pub fn wcb_rule(cx: &Cx, rep: &mut Report) {
             let has_where = st.cond.iter().any(|(a, b)| a.contains("split_for_impl") && ((*b && !a.ends_with(" is None")) || (!*b && a.ends_with(" is None"))));
             let pv = fields.iter().find(|(n, _)| *n == wp_real).map(|(_, v)| v.clone()).unwrap_or(Val::Unit);
             let tv = fields.iter().find(|(n, _)| *n == wt_real).map(|(_, v)| v.short()).unwrap_or_default();
+            // the where-clause iterated as a 0-or-1-element collection: all predicates of each element, nothing else
+            if let Val::List(l) = &pv {
+                if l.len() == 1 && matches!(&l[0], Val::Rep { coll, items } if coll == "generics.where_clause" && items.len() == 1 && matches!(&items[0], Val::Sym { path, .. } if path == "generics.where_clause[*].predicates")) {
+                    if tv == "L[]" { ok = true; } else { bad = true; }
+                    continue;
+                }
+            }
             if has_where {
                 if pv.any(&|y| matches!(y, Val::Opaque { what, .. } if what.contains("predicates"))) && pv.any(&|y| matches!(y, Val::Sym { path, .. } if path == "generics")) && tv == "L[]" { ok = true; } else { bad = true; }
             } else if pv.short() != "L[]" || tv != "L[]" { bad = true; }
